@@ -66,6 +66,16 @@ def payloads(tier):
             add("init-from-method-call", rp, ["def rmo := RM()", "def pv: %s := rmo.m()" % P], ok, tg, 1)
             add("init-from-call", rp, ["def pv: %s := rg()" % P], ok, tg, 0)
             add("arg-is-method-call", rp + ["def pf(x: %s) -> Int => 1" % P], ["def rmo := RM()", "def pr: Int := pf(rmo.m())"], ok, tg, 1)
+            # the value is a FIELD read whose declared type is T
+            fp = ["class RF", "    def f: %s := %s" % (T, v)]
+            add("implicit-last-field", fp + ["def rl(o: RF) -> %s => o.f" % P], ["rl(RF())"], ok, tg, ("prelude", len(CLASSES) + 2))
+            add("implicit-last-block-field", fp + ["def rl(o: RF) -> %s =>" % P, '    print("x")', "    o.f"], ["rl(RF())"], ok, tg, ("prelude", len(CLASSES) + 4))
+            add("return-field", fp + ["def rl(o: RF) -> %s =>" % P, "    return o.f"], ["rl(RF())"], ok, tg, ("prelude", len(CLASSES) + 3))
+            add("init-from-field", fp, ["def rfo := RF()", "def pv: %s := rfo.f" % P], ok, tg, 1)
+            add("reassign-from-field", fp, ["def rfo := RF()", "def pm: %s := %s" % (P, VAL[P]), "pm := rfo.f"], ok, tg, 2)
+            add("reassign-from-method-call", rp, ["def rmo := RM()", "def pm: %s := %s" % (P, VAL[P]), "pm := rmo.m()"], ok, tg, 2)
+            add("arg-is-field", fp + ["def pf(x: %s) -> Int => 1" % P], ["def rfo := RF()", "def pr: Int := pf(rfo.f)"], ok, tg, 1)
+            add("self-field-return", ["class RS2", "    def f: %s := %s" % (T, v), "    def get(self) -> %s => self.f" % P], ["def rso := RS2()", "rso.get()"], ok, tg, ("prelude", len(CLASSES) + 2))
             add("self-method-return", ["class RS", "    def inner(self) -> %s => %s" % (T, v), "    def outer(self) -> %s => self.inner()" % P], ["def rso := RS()", "rso.outer()"], ok, tg,
                 ("prelude", len(CLASSES) + 2))
     # the value is the tail of a compound construct (handle / if / match, in block form and nested): every slot that can be the
